@@ -4,11 +4,15 @@ import BrushVerif.Proofs.QuoteAnsi
 
 Theorems about `Model/Quote.lean` (brush's `escape::quote` and the printers built on it, tables
 regenerated from escape.rs) and `Model/Unquote.lean` (what brush's `eval` makes of the text; `b`
-selects bash's reading of `$'\0dd'`).  Quantifiers: every string over every character (`Str = List
-Char`), both read positions (argument of a command / value of an assignment).
+selects the bash reader — since the repair of the `$'\0dd'` reading the two agree on everything
+the quoting routines print).  Quantifiers: every string over every character but NUL
+(`Str = List Char`), both read positions (argument of a command / value of an assignment), every
+quoting mode, forced or not.
 
-Where brush's code does not satisfy the full statement, the full statement is kept as a `def … : Prop`,
-refuted on a concrete witness (`_cex`) and proved under a decidable guard (`_partial`).
+After the repairs (leading `~`/`#` and `~` after `:`/`=` are quoted; `$'\0dd'` takes three digits in
+all; `export -p` and `alias` quote their values) every statement about `quote` and the printers built
+on it holds at full strength: no guards other than "no NUL".  `trap -p` still prints the command
+between single quotes unescaped: `trap_p_full` / `trap_p_cex` / `trap_p_partial`.
 -/
 namespace BrushVerif.C13
 open BrushVerif.Wire BrushVerif.Quote BrushVerif.Gen.QuoteTables
@@ -16,11 +20,12 @@ open BrushVerif.Wire BrushVerif.Quote BrushVerif.Gen.QuoteTables
 /-- no ASCII control character (those switch `quote` to the ANSI-C style) -/
 def noCtl (s : Str) : Bool := s.all fun c => !isAsciiControl c
 
-/-- guard of the unquoted / backslash style: the text does not start with `~` (or `#` in argument
-position) and holds no `:~` -/
-def unqGuard (argPos : Bool) : Str → Bool
-  | [] => true
-  | c :: cs => c != '~' && !(argPos && c == '#') && bsInner (c :: cs)
+def noNul (s : Str) : Bool := s.all fun c => c.toNat != 0
+
+private theorem noNul_mem (s : Str) (h : noNul s = true) : ∀ c ∈ s, c.toNat ≠ 0 := by
+  intro c hc
+  have := List.all_eq_true.mp h c hc
+  simpa using this
 
 /-! ## the table -/
 
@@ -34,7 +39,7 @@ theorem needs_escaping_covers_metachars :
 
 example : ';' ∈ readerSpecial ∧ needsEscaping ';' = true := by decide
 
-/-! ## the three plain styles -/
+/-! ## the four styles -/
 
 /-- single-quoted text reads back, in both positions, for every string -/
 theorem read_singleQuote (b : Bool) (s : Str) :
@@ -54,93 +59,40 @@ theorem read_doubleQuote (b : Bool) (s : Str) :
 
 example : doubleQuote "a\"$b".toList = "\"a\\\"\\$b\"".toList := by decide
 
-/-- full statement for the backslash style (what `printf %q` uses) -/
-def read_backslashEscape_full : Prop :=
-  ∀ s : Str, noCtl s = true → readArgs false (backslashEscape s) = .words [s]
-
-/-- `printf %q '~'` prints `~`, which `eval` expands to `$HOME`; `printf %q '#'` prints a comment -/
-theorem read_backslashEscape_cex : ¬ read_backslashEscape_full := by
-  intro h
-  have := h ['~'] (by decide)
-  revert this
-  decide
-
-theorem read_backslashEscape_hash_cex :
-    readArgs false (backslashEscape ['#', 'a']) = .words [] := by decide
-
-private theorem read_bs_first (b st ws : Bool) (argPos : Bool) (s : Str) (hs : s ≠ [])
-    (hg : unqGuard argPos s = true) (hst : argPos = false → st = true) :
-    rd b (.un st ws) (s.flatMap bsChar) = .ok [] (some s) [] := by
+private theorem read_bs_any (b st ws : Bool) (s : Str) (hs : s ≠ []) (hc : noCtl s = true) :
+    rd b (.un st ws) (bsGo none s) = .ok [] (some s) [] := by
   cases s with
   | nil => exact absurd rfl hs
-  | cons c cs =>
-    simp only [unqGuard, bsInner, Bool.and_eq_true, bne_iff_ne, ne_eq, Bool.not_eq_true',
-      Bool.and_eq_false_imp, beq_iff_eq] at hg
-    obtain ⟨⟨h1, h2⟩, ⟨⟨h3, h4⟩, h5⟩⟩ := hg
-    have hcol : ¬(c = ':' ∧ cs.head? = some '~') := by
-      intro ⟨a, b'⟩; have := h4 a; simp [b'] at this
-    have hh : c = '#' → st = true := by
-      intro hc
-      cases argPos with
-      | true => have := h2 rfl; exact absurd hc (by simpa using this)
-      | false => exact hst rfl
-    rw [List.flatMap_cons, read_bsChar b st ws c cs h3 hcol hh (fun hc => absurd hc h1), read_bsInner b cs h5]
-    simp [Res.push]
+  | cons c cs => exact read_bsGo b cs c none st ws hc (fun h => absurd rfl h)
 
-/-- backslash-escaped text reads back unless it starts with `~`/`#` (or holds `:~`) -/
-theorem read_backslashEscape_partial (b : Bool) (s : Str) (hg : unqGuard true s = true) (hc : noCtl s = true) :
-    readArgs b (backslashEscape s) = .words [s] := by
+/-- backslash-escaped text (what `printf %q` uses) reads back, in both positions, for every string
+without control characters — a leading `~`/`#` and a `~` after `:`/`=` included -/
+theorem read_backslashEscape (b : Bool) (s : Str) (hc : noCtl s = true) :
+    readArgs b (backslashEscape s) = .words [s] ∧ readAsg b (backslashEscape s) = .value s := by
   cases s with
   | nil =>
-    have h := read_singleQuote_gen b false true [] []
+    have h := fun st ws => read_singleQuote_gen b st ws [] []
     simp [singleQuote] at h
-    simp [backslashEscape, readArgs, h, rd_un_nil, Res.prepend]
+    simp [backslashEscape, readArgs, readAsg, h, rd_un_nil, Res.prepend]
   | cons c cs =>
-    have := read_bs_first b false true true (c :: cs) (by simp) hg (by simp)
-    simp only [backslashEscape, List.isEmpty_cons, Bool.false_eq_true, if_false, readArgs, this]
+    have h := fun st ws => read_bs_any b st ws (c :: cs) (by simp) hc
+    simp only [backslashEscape, List.isEmpty_cons, Bool.false_eq_true, if_false, readArgs, readAsg, h]
     simp
 
-theorem read_backslashEscape_asg_partial (b : Bool) (s : Str) (hg : unqGuard false s = true) :
-    readAsg b (backslashEscape s) = .value s := by
-  cases s with
-  | nil =>
-    have h := read_singleQuote_gen b true true [] []
-    simp [singleQuote] at h
-    simp [backslashEscape, readAsg, h, rd_un_nil, Res.prepend]
-  | cons c cs =>
-    have := read_bs_first b true true false (c :: cs) (by simp) hg (by simp)
-    simp only [backslashEscape, List.isEmpty_cons, Bool.false_eq_true, if_false, readAsg, this]
-    simp
+example : backslashEscape "~a b=~#".toList = "\\~a\\ b=\\~#".toList := by decide
+example : readArgs false (backslashEscape ['#', 'a']) = .words [['#', 'a']] := by decide
 
-example : unqGuard true "a b#~:c".toList = true ∧ noCtl "a b#~:c".toList = true := by decide
+/-- ANSI-C quoted text reads back in brush and in bash, in both positions, for every NUL-free string -/
+theorem read_ansiC (b : Bool) (s : Str) (h : noNul s = true) :
+    readArgs b (ansiCQuote s) = .words [s] ∧ readAsg b (ansiCQuote s) = .value s := by
+  have hd := decode_ansi b s (noNul_mem s h)
+  have := fun st ws => read_ansiCQuote b st ws s hd
+  simp [readArgs, readAsg, this]
+
+/-- the former counter-example: `$'\x01'7` is printed as `$'\0017'` and now reads back -/
+example : readArgs false (ansiCQuote ['\x01', '7']) = .words [['\x01', '7']] := by decide
 
 /-! ## the dispatcher `escape::quote` -/
-
-/-- full statement: whatever `quote` prints, for whatever options, reads back -/
-def read_quote_full : Prop :=
-  ∀ (o : Opts) (s : Str), ('\x00' ∉ s) → readArgs false (quote o s) = .words [s]
-
-/-- `$'\x01'7` is printed as `$'\0017'`, which brush reads as `\x0f` (bash reads it back correctly) -/
-theorem read_quote_cex_octal : ¬ read_quote_full := by
-  intro h
-  have := h { always := true, mode := .single } ['\x01', '7'] (by decide)
-  revert this
-  decide
-
-theorem ansiC_octal_cex :
-    readArgs false (ansiCQuote ['\x01', '7']) = .words [['\x0f']] ∧
-    readArgs true (ansiCQuote ['\x01', '7']) = .words [['\x01', '7']] := by decide
-
-/-- a leading `~` is left unquoted when quoting is "if needed" -/
-theorem read_quote_cex_tilde :
-    readArgs false (quote { always := false, mode := .single } ['~']) = .words [home] := by decide
-
-private theorem flatMap_bsChar_id (s : Str) (h : s.any needsEscaping = false) : s.flatMap bsChar = s := by
-  induction s with
-  | nil => rfl
-  | cons c cs ih =>
-    simp only [List.any_cons, Bool.or_eq_false_iff] at h
-    simp [bsChar, h.1, ih h.2]
 
 private theorem noCtl_any (o : Opts) (s : Str) (h : noCtl s = true) :
     s.any (fun c => needsAnsiC c && (!o.avoidNl || c != '\n')) = false := by
@@ -151,110 +103,97 @@ private theorem noCtl_any (o : Opts) (s : Str) (h : noCtl s = true) :
     have ih' := ih (by simpa [noCtl] using h.2)
     rw [List.any_cons, ih']; simp [needsAnsiC, h.1]
 
-/-- for strings without control characters `quote` reads back in argument position, for every
-mode: always when quotes are forced, and under the unquoted-text guard otherwise -/
-theorem read_quote_partial (b : Bool) (o : Opts) (s : Str) (hc : noCtl s = true)
-    (hg : (o.always = false ∨ o.mode = .backslash) → unqGuard true s = true) :
-    readArgs b (quote o s) = .words [s] := by
-  unfold quote
-  rw [noCtl_any o s hc]
-  simp only [Bool.false_eq_true, if_false]
-  split
-  · -- left as it is: not always, non-empty, nothing to escape
-    rename_i h
-    simp only [Bool.not_eq_true', Bool.or_eq_false_iff] at h
-    obtain ⟨⟨h1, h2⟩, h3⟩ := h
-    have hne : s ≠ [] := by intro e; subst e; simp at h2
-    have := read_bs_first b false true true s hne (hg (Or.inl h1)) (by simp)
-    rw [flatMap_bsChar_id s h3] at this
-    simp [readArgs, this]
-  · rename_i h
-    cases hm : o.mode with
-    | backslash => simp only []; exact read_backslashEscape_partial b s (hg (Or.inr hm)) hc
-    | single => simp only []; exact (read_singleQuote b s).1
-    | double => simp only []; exact (read_doubleQuote b s).1
-
-example : noCtl "it's $x".toList = true := by decide
-
-/-! ## ANSI-C quoting (strings with control characters) -/
-
-def noNul (s : Str) : Bool := s.all fun c => c.toNat != 0
-
-private theorem noNul_mem (s : Str) (h : noNul s = true) : ∀ c ∈ s, c.toNat ≠ 0 := by
-  intro c hc
-  have := List.all_eq_true.mp h c hc
-  simpa using this
-
-/-- what `ansi_c_quote` prints is read back by bash's rule for `\0dd`, for every NUL-free string -/
-theorem read_ansiC_bash (s : Str) (h : noNul s = true) :
-    readArgs true (ansiCQuote s) = .words [s] ∧ readAsg true (ansiCQuote s) = .value s := by
-  have hd := decode_ansi true s (noNul_mem s h) (by simp)
-  have := fun st ws => read_ansiCQuote true st ws s hd
-  simp [readArgs, readAsg, this]
-
-/-- full statement for brush's own reader -/
-def read_ansiC_brush_full : Prop :=
-  ∀ s : Str, noNul s = true → readArgs false (ansiCQuote s) = .words [s]
-
-theorem read_ansiC_brush_cex : ¬ read_ansiC_brush_full := by
-  intro h
-  have := h ['\x01', '7'] (by decide)
-  revert this
-  decide
-
-/-- brush reads its own ANSI-C quoting back when no `\0dd` escape is followed by an octal digit -/
-theorem read_ansiC_brush_partial (s : Str) (h : noNul s = true) (hg : octSafe s = true) :
-    readArgs false (ansiCQuote s) = .words [s] ∧ readAsg false (ansiCQuote s) = .value s := by
-  have hd := decode_ansi false s (noNul_mem s h) (fun _ => hg)
-  have := fun st ws => read_ansiCQuote false st ws s hd
-  simp [readArgs, readAsg, this]
-
-example : octSafe ['a', '\x01', 'b', '\n', '7', '\x7f', '7'] = true ∧ noNul ['a', '\x01', 'b', '\n', '7', '\x7f', '7'] = true := by decide
-
-/-- the dispatcher on strings with control characters, every mode, forced or not -/
-theorem read_quote_ctl_partial (b : Bool) (o : Opts) (s : Str) (hnl : o.avoidNl = false)
-    (hc : noCtl s = false) (h : noNul s = true) (hg : b = false → octSafe s = true) :
+/-- whatever `quote` prints — any mode, forced or only if needed — reads back to the original
+string, as an argument and as an assigned value, in brush and in bash -/
+theorem read_quote (b : Bool) (o : Opts) (s : Str) (hnl : o.avoidNl = false) (h : noNul s = true) :
     readArgs b (quote o s) = .words [s] ∧ readAsg b (quote o s) = .value s := by
-  have hany : s.any (fun c => needsAnsiC c && (!o.avoidNl || c != '\n')) = true := by
-    obtain ⟨c, hm, hcc⟩ := List.all_eq_false.mp hc
-    exact List.any_eq_true.mpr ⟨c, hm, by simp [needsAnsiC, hnl]; simpa using hcc⟩
-  have hq : quote o s = ansiCQuote s := by unfold quote; rw [hany]; simp
-  rw [hq]
-  have hd := decode_ansi b s (noNul_mem s h) hg
-  have := fun st ws => read_ansiCQuote b st ws s hd
-  simp [readArgs, readAsg, this]
+  cases hc : noCtl s with
+  | false =>
+    have hany : s.any (fun c => needsAnsiC c && (!o.avoidNl || c != '\n')) = true := by
+      obtain ⟨c, hm, hcc⟩ := List.all_eq_false.mp hc
+      exact List.any_eq_true.mpr ⟨c, hm, by simp [needsAnsiC, hnl]; simpa using hcc⟩
+    have hq : quote o s = ansiCQuote s := by unfold quote; rw [hany]; simp
+    rw [hq]; exact read_ansiC b s h
+  | true =>
+    unfold quote
+    rw [noCtl_any o s hc]
+    simp only [Bool.false_eq_true, if_false]
+    split
+    · -- left as it is: nothing to escape, nothing special by position
+      rename_i hcond
+      simp only [Bool.not_eq_true', Bool.or_eq_false_iff] at hcond
+      obtain ⟨⟨⟨_, h2⟩, h3⟩, h4⟩ := hcond
+      have hne : s ≠ [] := by intro e; subst e; simp at h2
+      have hr := fun st ws => read_bs_any b st ws s hne hc
+      rw [bsGo_id s none h3 h4] at hr
+      simp [readArgs, readAsg, hr]
+    · cases hm : o.mode with
+      | backslash => simp only []; exact read_backslashEscape b s hc
+      | single => simp only []; exact read_singleQuote b s
+      | double => simp only []; exact read_doubleQuote b s
 
-/-! ## printers built on `quote` -/
+example : quote { always := false, mode := .single } ['~'] = ['\'', '~', '\''] := by decide
 
-/-- `${v@Q}` reads back in both positions (no control characters) -/
-theorem atQ_rereads (b : Bool) (v : Str) (hc : noCtl v = true) :
-    readArgs b (atQ v) = .words [v] ∧ readAsg b (atQ v) = .value v := by
-  have : atQ v = singleQuote v := by
-    unfold atQ forceQuote quote
-    rw [noCtl_any _ v hc]; simp
-  rw [this]; exact read_singleQuote b v
-
-/-- the value `declare -p` prints for a scalar reads back as the value of the assignment -/
-theorem declare_p_value_rereads (b : Bool) (v : Str) (hc : noCtl v = true) :
-    readAsg b (declValue v) = .value v := by
-  have : declValue v = doubleQuote v := by
-    unfold declValue forceQuote quote
-    rw [noCtl_any _ v hc]; simp
-  rw [this]; exact (read_doubleQuote b v).2
+/-! ## printers -/
 
 /-- `printf %q` -/
-theorem printfQ_partial (b : Bool) (v : Str) (hc : noCtl v = true) (hg : unqGuard true v = true) :
-    readArgs b (printfQ v) = .words [v] :=
-  read_quote_partial b _ v hc (fun _ => hg)
+theorem printfQ_rereads (b : Bool) (v : Str) (h : noNul v = true) :
+    readArgs b (printfQ v) = .words [v] ∧ readAsg b (printfQ v) = .value v :=
+  read_quote b _ v rfl h
+
+/-- `${v@Q}` and the value in `${v@A}` -/
+theorem atQ_rereads (b : Bool) (v : Str) (h : noNul v = true) :
+    readArgs b (atQ v) = .words [v] ∧ readAsg b (atQ v) = .value v :=
+  read_quote b _ v rfl h
+
+/-- xtrace arguments and the values `set` prints -/
+theorem traceArg_rereads (b : Bool) (v : Str) (h : noNul v = true) :
+    readArgs b (traceArg v) = .words [v] ∧ readAsg b (traceArg v) = .value v :=
+  read_quote b _ v rfl h
+
+/-- the value `declare -p` and `export -p` print for a scalar -/
+theorem declare_p_value_rereads (b : Bool) (v : Str) (h : noNul v = true) :
+    readAsg b (declValue v) = .value v :=
+  (read_quote b _ v rfl h).2
+
+theorem exportP_is_declare_format (name v : Str) :
+    exportP name v = "declare -x ".toList ++ name ++ ['='] ++ declValue v := rfl
 
 example : printfQ "a b".toList = "a\\ b".toList := by decide
 
-/-! ## printers that do not escape (`alias`, `trap -p`, `export -p`) -/
+private theorem rd_sq_bash (b : Bool) (v t : Str) :
+    rd b .sq (v.flatMap (fun c => if c = '\'' then ['\'', '\\', '\'', '\''] else [c]) ++ '\'' :: t) =
+      (rd b (.un true false) t).prepend v := by
+  induction v with
+  | nil => simp [rd_sq_q, Res.prepend_nil, start_rd_un_true]
+  | cons c cs ih =>
+    by_cases hc : c = '\''
+    · subst hc
+      simp [rd_sq_q, rd_un_bs_quote, rd_un_sq, ih]
+    · simp [hc, rd_sq_c b c _ hc, ih]
 
-/-- full statement for the quoting `alias` and `trap -p` use: the body between single quotes -/
-def naive_single_full : Prop := ∀ v : Str, readAsg false ('\'' :: (v ++ ['\''])) = .value v
+/-- the quoting `alias` uses reads back for every body, single quotes included -/
+theorem sqBash_rereads (b : Bool) (v : Str) :
+    readArgs b (sqBash v) = .words [v] ∧ readAsg b (sqBash v) = .value v := by
+  unfold sqBash
+  by_cases h : v = ['\'']
+  · subst h
+    simp [readArgs, readAsg, rd_un_bs_quote, rd_un_nil, Res.push]
+  · have := rd_sq_bash b v []
+    simp [h, readArgs, readAsg, rd_un_sq, this, rd_un_nil, Res.prepend]
 
-theorem naive_single_cex : ¬ naive_single_full := by
+example : sqBash "it's".toList = "'it'\\''s'".toList := by decide
+
+/-! ## `trap -p` (not repaired: the command is printed between single quotes, unescaped) -/
+
+/-- the command word of `trap -p`'s line -/
+def trapWord (v : Str) : Str := '\'' :: (v ++ ['\''])
+
+example : trapP "a b".toList "SIGUSR1".toList = "trap -- ".toList ++ trapWord "a b".toList ++ " SIGUSR1".toList := by decide
+
+def trap_p_full : Prop := ∀ v : Str, readArgs false (trapWord v) = .words [v]
+
+theorem trap_p_cex : ¬ trap_p_full := by
   intro h
   have := h ['a', '\'', 'b']
   revert this
@@ -269,36 +208,10 @@ private theorem rd_sq_plain (b : Bool) (v t : Str) (h : '\'' ∉ v) :
     have hc : c ≠ '\'' := fun e => h.1 e.symm
     simp [rd_sq_c b c _ hc, ih h.2]
 
-/-- `alias x='body'` / `trap -- 'cmd' SIG` read back when the body holds no single quote -/
-theorem naive_single_partial (b : Bool) (v : Str) (h : '\'' ∉ v) :
-    readAsg b ('\'' :: (v ++ ['\''])) = .value v := by
+/-- `trap -- 'cmd' SIG` reads back when the command holds no single quote -/
+theorem trap_p_partial (b : Bool) (v : Str) (h : '\'' ∉ v) :
+    readArgs b (trapWord v) = .words [v] := by
   have := rd_sq_plain b v [] h
-  simp [readAsg, rd_un_sq, this, rd_un_nil, Res.prepend]
-
-/-- full statement for `export -p`: the value between double quotes -/
-def naive_double_full : Prop := ∀ v : Str, readAsg false ('"' :: (v ++ ['"'])) = .value v
-
-theorem naive_double_cex : ¬ naive_double_full := by
-  intro h
-  have := h ['a', '"', 'b']
-  revert this
-  decide
-
-/-- `export -p` reads back when the value holds none of `"` `$` `` ` `` `\` -/
-theorem naive_double_partial (b : Bool) (v : Str) (h : ∀ c ∈ v, dqEscapable c = false) :
-    readAsg b ('"' :: (v ++ ['"'])) = .value v := by
-  have hb : ∀ (v t : Str), (∀ c ∈ v, dqEscapable c = false) →
-      rd b .dq (v ++ '"' :: t) = (rd b (.un true false) t).prepend v := by
-    intro v t hv
-    induction v with
-    | nil => simp [rd_dq_q, Res.prepend_nil, start_rd_un_true]
-    | cons c cs ih =>
-      have hc := hv c (by simp)
-      simp only [dqEscapable, Bool.or_eq_false_iff, decide_eq_false_iff_not] at hc
-      obtain ⟨⟨⟨h1, h2⟩, h3⟩, h4⟩ := hc
-      simp [rd_dq_c b c _ h3 h1 h2 h4, ih (fun x hx => hv x (by simp [hx]))]
-  simp [readAsg, rd_un_dq, hb v [] h, rd_un_nil, Res.prepend]
-
-example : ∀ c ∈ "a b'c".toList, dqEscapable c = false := by decide
+  simp [trapWord, readArgs, rd_un_sq, this, rd_un_nil, Res.prepend]
 
 end BrushVerif.C13
